@@ -39,6 +39,15 @@ TYPES = {'node': [NodeType.VM, NodeType.Server, NodeType.Switch, NodeType.Facili
 STRUCTURAL = {'network_service_info', 'type', 'name'}       # identity / structure, exercised by every case
 
 
+def _blob_of_length(n):
+    """a Python object whose default JSON encoding has exactly n characters"""
+    import json as _j
+    obj = {'k': ''}
+    obj['k'] = 'x' * (n - len(_j.dumps(obj)))
+    assert len(_j.dumps(obj)) == n
+    return obj
+
+
 def _deleg(t, pool=False):
     ds = Delegations(atype=t)
     d = Delegation(atype=t, delegation_id='del1', aformat=DelegationFormat.PoolDefinition if pool else DelegationFormat.SinglePool,
@@ -109,9 +118,11 @@ VOCAB = {
     'stitch_node': [lambda: True, lambda: False],
     'tags': [lambda: Tags('a', 'b-c'), lambda: Tags()],
     'flags': [lambda: Flags(auto_config=True), lambda: Flags(ptp=True, ipv4_management=True), lambda: Flags()],
-    'mf_data': [lambda: MeasurementData({'k': 1}), lambda: MeasurementData('[1, 2]')],
-    'user_data': [lambda: UserData({'u': [1, {'z': None}]}), lambda: UserData('"text"')],
-    'layout_data': [lambda: LayoutData({'x': 1.5})],
+    # (the last value of each blob kind is an object whose encoding is exactly as long as the kind's size limit: what
+    # the object form accepts, the text form met on the way back must accept too)
+    'mf_data': [lambda: MeasurementData({'k': 1}), lambda: MeasurementData('[1, 2]'), lambda: MeasurementData(_blob_of_length(MeasurementData.MAX_SIZE))],
+    'user_data': [lambda: UserData({'u': [1, {'z': None}]}), lambda: UserData('"text"'), lambda: UserData(_blob_of_length(UserData.MAX_SIZE))],
+    'layout_data': [lambda: LayoutData({'x': 1.5}), lambda: LayoutData(_blob_of_length(LayoutData.MAX_SIZE))],
     'boot_script': [lambda: '#!/bin/bash\necho "hi"', lambda: ''],
     # node
     'management_ip': [lambda: '10.0.0.1', lambda: '2001:db8::1'],
